@@ -403,3 +403,42 @@ mod tests {
         assert_eq!(load_all(slab2), vec![701, 901, 10]); // The last item should not be affected.
     }
 }
+
+/// Drivers for the external verification harnesses (see `crate::verif_hooks`): they only run the real
+/// group-by over a slice (or two flattened slices) and report what it yields; no grouping logic here.
+#[cfg(any(kani, mmtk_verif))]
+pub mod verif_hooks {
+    use super::*;
+    pub fn group_by_slice<K: PartialEq + Copy>(
+        items: &[u8],
+        get_key: impl FnMut(&&u8) -> K,
+        mut on_group: impl FnMut(K, usize),
+        mut on_item: impl FnMut(u8),
+    ) {
+        for group in items.iter().revisitable_group_by(get_key) {
+            on_group(group.key, group.len);
+            for x in group {
+                on_item(*x);
+            }
+        }
+    }
+    pub fn group_by_flattened_slices<K: PartialEq + Copy>(
+        slices: &[&[u8]],
+        get_key: impl FnMut(&u8) -> K,
+        mut on_group: impl FnMut(K, usize),
+        mut on_item: impl FnMut(u8),
+    ) {
+        for group in slices
+            .iter()
+            .copied()
+            .flatten()
+            .copied()
+            .revisitable_group_by(get_key)
+        {
+            on_group(group.key, group.len);
+            for x in group {
+                on_item(x);
+            }
+        }
+    }
+}
